@@ -2,6 +2,17 @@ import Sif.Model.Clp.Msgs
 import Sif.Proofs.AList
 import Sif.Proofs.Except
 /- Frame lemmas for the primitive state updates of the AMM model (core tactics only). -/
+
+theorem Sif.em_eq (p : Prop) [Decidable p] : (p = True) ∨ (p = False) := by
+  by_cases h : p
+  · exact Or.inl (eq_true h)
+  · exact Or.inr (eq_false h)
+
+/-- case split on a proposition, keeping it as a rewrite rule `p = True` / `p = False` (so that
+    `simp only [h]` decides every `if p then … else …` without rewriting inside `p`) -/
+macro "split_prop " h:ident " : " t:term : tactic =>
+  `(tactic| (cases (Sif.em_eq $t) with | inl $h => ?_ | inr $h => ?_))
+
 namespace Sif.Clp
 open Sif Sif.AList
 
@@ -139,5 +150,35 @@ theorem sendFromModule_frame {s s' : St} {dst denom : String} {amt : Nat} (h : s
   split at h
   · cases h
   · exact send_frame h
+
+end Sif.Clp
+
+namespace Sif.Clp
+open Sif Sif.AList
+
+/-- coins entering the module account -/
+theorem send_in_bal {s s' : St} {src d0 : String} {amt : Nat} (h : send s src clpAcct d0 amt = some s')
+    (hne : src ≠ clpAcct) (d : String) : s'.bal clpAcct d = s.bal clpAcct d + (if d = d0 then amt else 0) := by
+  obtain ⟨_, b, _⟩ := send_spec h hne
+  rw [b]
+  have : clpAcct ≠ src := Ne.symm hne
+  grind
+
+/-- coins leaving the module account: it loses at most `amt` of `d0` and nothing else -/
+theorem send_out_bal {s s' : St} {dst d0 : String} {amt : Nat} (h : send s clpAcct dst d0 amt = some s')
+    (d : String) : s.bal clpAcct d ≤ s'.bal clpAcct d + (if d = d0 then amt else 0) := by
+  by_cases hd : dst = clpAcct
+  · subst hd
+    unfold send at h
+    split at h
+    · cases h; omega
+    · split at h
+      · cases h
+      · cases h
+        simp only [bal_setBal]
+        grind
+  · obtain ⟨hle, b, _⟩ := send_spec h (Ne.symm hd)
+    rw [b]
+    grind
 
 end Sif.Clp
